@@ -488,4 +488,107 @@ theorem fullPlan_leaves_queue_empty (s : Sess) (r : Req) (h : Hint) :
     rw [this, exec_append]; simp [exec, execAct, drain_queue]
   | stop => intro ha; rw [exec_append] at ha; simp [runRule, exec, execAct] at ha
 
+
+/-! ### whole histories -/
+
+theorem hasReset_of_safe (acts : List Act) : ∀ pt pl, safeActs pt pl acts = true → hasReset acts = false := by
+  induction acts with
+  | nil => intro _ _ _; rfl
+  | cons a r ih =>
+    intro pt pl h
+    cases a <;> simp only [safeActs, hasReset, Bool.and_eq_true] at h ⊢ <;> try (exact ih _ _ h)
+    case enq es =>
+      by_cases hl : es.any IEv.isLife = true
+      · rw [if_pos hl, Bool.and_eq_true] at h; exact ih _ _ h.2.2
+      · rw [if_neg hl] at h; exact ih _ _ h.2
+    case refresh tl => exact ih _ _ h.2
+    case resetLatch => cases h
+
+theorem fullPlan_safe (s : Sess) (r : Req) (h : Hint) :
+    safeActs false false (fullPlan s r h) = true ∨
+      (∃ rest, fullPlan s r h = .resetLatch :: rest ∧ safeActs false false rest = true) := by
+  unfold fullPlan
+  rcases plan_safe s r h with hp | ⟨rest, hp, hs⟩
+  · exact Or.inl (safeActs_append_safe _ _ _ _ hp (safeActs_runRule _))
+  · exact Or.inr ⟨rest ++ runRule (plan s r h).2, by rw [hp]; rfl, safeActs_append_safe _ _ _ _ hs (safeActs_runRule _)⟩
+
+/-- the invariant at request boundaries: `run` has drained the queue before it reads -/
+def TB (s : Sess) (live : List Nat) : Prop := TInv s live ∧ (s.alive = true → s.queue = [])
+
+theorem step_thread (s s' : Sess) (r : Req) (h : Hint) (out : List Msg) (live : List Nat) (hb : TB s live)
+    (hs : runStep s r h = some (s', out))
+    (hclean : hasReset (fullPlan s r h) = true → s.terminated = false ∨ s.threadCache = []) :
+    ∃ live', threadRun live (Item.req r.cmd :: out.map Item.msg) = some live' ∧ TB s' live' := by
+  unfold runStep at hs
+  split at hs
+  · rename_i halive
+    injection hs with hs
+    have hs1 : (exec r s (fullPlan s r h)).1 = s' := congrArg Prod.fst hs
+    have hs2 : (exec r s (fullPlan s r h)).2 = out := congrArg Prod.snd hs
+    have hq : s.queue = [] := hb.2 halive
+    have hreq : ∀ l rest, threadRun l (Item.req r.cmd :: rest) = threadRun l rest := fun _ _ => rfl
+    rw [hreq]
+    have hempty : (exec r s (fullPlan s r h)).1.alive = true → (exec r s (fullPlan s r h)).1.queue = [] :=
+      fullPlan_leaves_queue_empty s r h
+    rcases fullPlan_safe s r h with hsafe | ⟨rest, hp, hsafe⟩
+    · obtain ⟨live', e, t⟩ := exec_thread r (fullPlan s r h) s live false false hb.1
+        ⟨fun _ e he => (by rw [hq] at he; exact absurd he (List.not_mem_nil)), fun _ => (by rw [hq]; rfl)⟩ hsafe
+      exact ⟨live', by rw [← hs2]; exact e, by rw [← hs1]; exact ⟨t, hempty⟩⟩
+    · have hres : hasReset (fullPlan s r h) = true := by rw [hp]; rfl
+      have hex : exec r s (fullPlan s r h) = exec r { s with terminated := false } rest := by
+        rw [hp]; simp [exec, execAct]
+      have t0 : TInv { s with terminated := false } live := by
+        refine ⟨hb.1.cacheNodup, fun _ => ⟨live, by simp [hq, applyQ], ?_⟩, fun hh => Bool.noConfusion hh, fun hh => (by simp [hq] at hh)⟩
+        cases hterm : s.terminated with
+        | false =>
+          obtain ⟨l, hl, hm⟩ := hb.1.sync hterm
+          rw [hq] at hl
+          cases hl
+          exact hm
+        | true =>
+          rcases hclean hres with hc | hc
+          · rw [hterm] at hc; cases hc
+          · intro t; simp [hb.1.quiet hterm, hc]
+      obtain ⟨live', e, t⟩ := exec_thread r rest { s with terminated := false } live false false t0
+        ⟨fun _ e he => by simp [hq] at he, fun _ => by simp [hq]⟩ hsafe
+      refine ⟨live', by rw [← hs2, hex]; exact e, ?_⟩
+      rw [← hs1]
+      exact ⟨by rw [hex]; exact t, hempty⟩
+  · cases hs
+
+theorem trace_thread (hist : List (Req × Hint)) : ∀ (s : Sess) (live : List Nat), TB s live → cleanRelaunch s hist = true →
+    ∃ live', threadRun live (trace s hist) = some live' ∧ TB (finalSess s hist) live' := by
+  induction hist with
+  | nil => intro s live hb _; exact ⟨live, rfl, hb⟩
+  | cons rh rest ih =>
+    intro s live hb hc
+    obtain ⟨r, h⟩ := rh
+    unfold trace finalSess
+    unfold cleanRelaunch at hc
+    cases hs : runStep s r h with
+    | none =>
+      simp only [hs] at hc ⊢
+      exact ih s live hb hc
+    | some p =>
+      obtain ⟨s', out⟩ := p
+      simp only [hs, Bool.and_eq_true] at hc ⊢
+      obtain ⟨hc1, hc2⟩ := hc
+      have hclean : hasReset (fullPlan s r h) = true → s.terminated = false ∨ s.threadCache = [] := by
+        intro hr
+        cases hterm : s.terminated with
+        | false => exact Or.inl rfl
+        | true =>
+          right
+          simp [hr, hterm] at hc1
+          exact hc1
+      obtain ⟨l1, e1, b1⟩ := step_thread s s' r h out live hb hs hclean
+      obtain ⟨l2, e2, b2⟩ := ih s' l1 b1 hc2
+      refine ⟨l2, ?_, b2⟩
+      have : Item.req r.cmd :: (out.map Item.msg ++ trace s' rest) = (Item.req r.cmd :: out.map Item.msg) ++ trace s' rest := rfl
+      rw [this, threadRun_append, e1]
+      exact e2
+
+theorem tb_init : TB {} [] :=
+  ⟨⟨by simp, fun _ => ⟨[], rfl, by simp⟩, fun hh => Bool.noConfusion hh, fun hh => (by simp at hh)⟩, fun _ => rfl⟩
+
 end BsVerif.Dap
